@@ -3,7 +3,7 @@ sys.path.insert(0, os.path.join(os.path.dirname(os.path.dirname(os.path.abspath(
 import vcheck
 
 T = "GeomV.C10."
-TIES = ["LongLat", "Merc", "TMerc", "UTM", "LCC", "AEA", "EqdC", "Krovak", "Registered", "Path", "Datum", "State", "Transform", "Axis", "Geom", "DatumBody", "AxisLoop"]
+TIES = ["LongLat", "Merc", "TMerc", "UTM", "LCC", "AEA", "EqdC", "Krovak", "Registered", "Path", "Datum", "State", "Transform", "Axis", "Geom", "DatumBody", "AxisLoop", "Prelude"]
 CTORS = ["LongLat", "Merc", "TMerc", "UTM", "LCC", "AEA", "EqdC", "Krovak"]
 
 
@@ -21,7 +21,8 @@ def pregen(check):
                                 ("axis", "GenAxis.lean", "def axisCases"),
                                 ("geom", "GenGeom.lean", "def geomMethods"),
                                 ("datumbody", "GenDatumBody.lean", "def datumBody"),
-                                ("axisloop", "GenAxisLoop.lean", "def axisFn")):
+                                ("axisloop", "GenAxisLoop.lean", "def axisFn"),
+                                ("prelude", "GenPrelude.lean", "def newTransformBody")):
         out = os.path.join(vcheck.LEAN, "GeomV", "C10", fname)
         with vcheck.Lock("go"):
             p = subprocess.run(["go", "run", "./cmd/c10/astwrites", vcheck.REPO if mode == "geom" else os.path.join(vcheck.REPO, "proj"), mode], cwd=vcheck.HARNESS,
@@ -105,7 +106,7 @@ CFG = {
         "C10_datum_frame", "C10_datum_never_written", "C10_datum_pure", "C10_datum_history", "C10_pure_with_datums", "C10_step_datums_frame", "C10_datum_panic_is_panic",
         "tie_transform3", "tie_closure", "tie_checkNotWGS", "tie_TransformConsts", "tie_Axis_cases",
         "tie_geom_Point", "tie_geom_MultiPoint", "tie_geom_LineString", "tie_geom_MultiLineString", "tie_geom_MultiPolygon",
-        "tie_geom_GeometryCollection", "tie_geom_Bounds", "tie_geom_nil", "tie_geom_Polygon", "tie_geom_methods", "tie_geom_program", "tie_DatumSig", "tie_AxisShape",
+        "tie_geom_GeometryCollection", "tie_geom_Bounds", "tie_geom_nil", "tie_geom_Polygon", "tie_geom_methods", "tie_geom_program", "tie_geom_writes", "tie_DatumSig", "tie_AxisShape", "tie_PreludeSig", "C10_build_pure",
         "C10_mem_refines", "C10_mem_refines_flat", "C10_mem_refines_nil", "C10_mem_vertices", "C10_mem_input_kept",
     ]],
     "trusted_base": [
